@@ -792,30 +792,37 @@ impl Transaction {
 		// Generate a single timestamp for this commit
 		let commit_timestamp = self.core.opts.clock.now();
 
-		// Add all entries to the batch
-		for entry in latest_writes {
-			// Use the entry's timestamp if it was explicitly set (via set_at),
-			// otherwise use the commit timestamp
-			let timestamp = if entry.timestamp != Entry::COMMIT_TIME {
-				entry.timestamp
-			} else {
-				commit_timestamp
-			};
-			batch.add_record(entry.kind, entry.key, entry.value, timestamp)?;
-		}
-
-		// Write the batch to storage. The pipeline runs the oracle.check +
-		// seq alloc + oracle.publish + WAL atomically under `write_mutex`,
-		// then runs memtable apply OUTSIDE the lock.
-		let should_sync = self.durability == Durability::Immediate;
-		self.core.commit(batch, should_sync, self.start_seq_num).await?;
-
-		// Mark the transaction as closed and release the watermark slot.
+		// The pending writes have left the transaction: whatever happens from here
+		// on, it is over. Left open after a failure, a second `commit()` would find
+		// an empty write set and report success for a transaction of which nothing
+		// was written.
 		self.closed = true;
+		let result = async {
+			// Add all entries to the batch
+			for entry in latest_writes {
+				// Use the entry's timestamp if it was explicitly set (via set_at),
+				// otherwise use the commit timestamp
+				let timestamp = if entry.timestamp != Entry::COMMIT_TIME {
+					entry.timestamp
+				} else {
+					commit_timestamp
+				};
+				batch.add_record(entry.kind, entry.key, entry.value, timestamp)?;
+			}
+
+			// Write the batch to storage. The pipeline runs the oracle.check +
+			// seq alloc + oracle.publish + WAL atomically under `write_mutex`,
+			// then runs memtable apply OUTSIDE the lock.
+			let should_sync = self.durability == Durability::Immediate;
+			self.core.commit(batch, should_sync, self.start_seq_num).await
+		}
+		.await;
+
+		// Release the watermark slot.
 		if let Some(mut g) = self.txn_guard.take() {
 			g.release();
 		}
-		Ok(())
+		result
 	}
 
 	pub fn rollback(&mut self) {
